@@ -232,6 +232,18 @@ def gen_history(cfg, ref, rng):
     """Draw a fault plan: one fault per segment, up to three segments with faults."""
     n_faults = rng.choice([1, 1, 2, 2, 2, 3, 3])  # multi-fault histories reach state carried across *two* resumes
     faults = []
+    markers = ref.get('save_markers') or []
+    if len(markers) >= 3 and rng.random() < 0.2:
+        # scenario "the job is stopped twice between saves" (e.g. it hits its wall-time limit twice): a clean kill
+        # right after a completed save, resume, a few more saves by the resumed run, another clean kill, resume.
+        # This is the history that exposes state carried from one resume to the next (environments, counters).
+        ops_per_save_ = max(2, (markers[-1] - markers[0]) // max(1, len(markers) - 1))
+        first = rng.choice(markers[:-2])
+        second = ops_per_save_ * rng.choice([1, 1, 2, 3]) + rng.choice([0, 1])
+        apis = [('checkpoint_results' if rng.random() < 0.25 else 'filename') for _ in range(3)]
+        return {'cfg': cfg, 'faults': [{'kind': 'kill', 'at_op': first, 'tear': None},
+                                       {'kind': 'kill', 'at_op': second, 'tear': None}],
+                'clock_seed': rng.getrandbits(32), 'resume_api': apis, 'scenario': 'stopped_twice_between_saves'}
     ops_total = max(ref['ops'], 2)
     ops_per_save = max(2, ops_total // max(1, ref['n_saves']))
     remaining = ops_total  # rough number of file-system ops the next segment still has to do
@@ -574,6 +586,7 @@ def _run_config(idx, tier, seed, ctx):
     ref_results = out['results']
     ref = {'ops': out['ops_in_segment'], 'n_saves': sum(1 for s in world.saves if s['segment'] >= 0 and s['completed']),
            'delivery_points': out['delivery_points'], 'clock_reads': out['clock_reads'],
+           'save_markers': [sv['marker'] for sv in world.saves if sv['segment'] >= 0 and sv['completed']],
            'first_save_done_at': next((sv['marker'] for sv in world.saves if sv['segment'] >= 0 and sv['completed']),
                                       None)}
     stats['fs_ops'] += ref['ops']
